@@ -259,12 +259,12 @@ fn eval_quantity(
                 Expr::Const { ref value } => {
                     let value = value
                         .to_int()
-                        .filter(|value| value.abs() <= i32::MAX as i64)
+                        .filter(|value| value.unsigned_abs() <= i32::MAX as u64)
                         .filter(|&value| {
                             left.iter().all(|(_, &power)| {
                                 power
                                     .checked_mul(value)
-                                    .map_or(false, |power| power.abs() <= i32::MAX as i64)
+                                    .map_or(false, |power| power.unsigned_abs() <= i32::MAX as u64)
                             })
                         })
                         .ok_or_else(|| "RHS of `^` is too big".to_string())?;
@@ -277,12 +277,12 @@ fn eval_quantity(
                     if let Expr::Const { ref value } = **expr {
                         let value = -value
                             .to_int()
-                            .filter(|value| value.abs() <= i32::MAX as i64)
+                            .filter(|value| value.unsigned_abs() <= i32::MAX as u64)
                             .filter(|&value| {
                                 left.iter().all(|(_, &power)| {
                                     power
                                         .checked_mul(value)
-                                        .map_or(false, |power| power.abs() <= i32::MAX as i64)
+                                        .map_or(false, |power| power.unsigned_abs() <= i32::MAX as u64)
                                 })
                             })
                             .ok_or_else(|| "RHS of `^` is too big".to_string())?;
